@@ -598,6 +598,10 @@ def _known(fr: Frame, name: str, e, args, kwargs, env, guard, stmt):
         if isinstance(v, Vec) and v.kind == "list" and len(v.items) == 2 and name.startswith("np.") \
                 and all(isinstance(i, Rat) for i in v.items):
             return Vec(v.items, "point")
+        if isinstance(v, Vec) and v.kind == "list" and name.startswith("np.") and not v.arr:
+            from .seqdom import Gen
+            if any(isinstance(i, Gen) for i in v.items):
+                return Vec(v.items, "list", arr=True)          # an array known block by block: arithmetic on it is element-wise
         return v
     if name in ("np.all", "py.all"):
         v = a(0)
